@@ -2209,7 +2209,7 @@ LEVEL = {
             "and its generators; harness/extract_C09.py. Hypotheses that remain interfaces to other properties: name algebra of owner/target "
             "names (asName/isSubdomain/relativize: C01/C06), wire codecs of known types under want_generic (C02), RDATA text codecs of types "
             "other than A/NS/CNAME/PTR/MX/SOA/TXT/generic (C05; checked per rdata by the oracle). Tie-only: base64 chunking (no base64 type in "
-            "the model), the text produced by $GENERATE substitution for bases o/x/X/n/N.",
+            "the model), the $GENERATE nibble bases n/N beyond their defining equation (bases o/x/X: generate_format_radix). Entry points other than from_text(str)/to_styled_text -- to_text/to_file/to_styled_file (text, binary, path), from_text(bytes, file object, origin str), from_file, zone_factory, allow_directives and dns.zonefile.read_rrsets -- are held to the modelled ones by implementation-side route oracles only.",
     "technique": "Lean 4 proof (structural induction over the tokenizer automaton and the line list, refinement of the reader to a "
                  "denotational interp) + model-vs-implementation correspondence + direct write/read oracle",
     "design_ref": "DESIGN.md §7 C09",
